@@ -48,9 +48,23 @@ func envaPart(r *ev.Report, dir string) {
 					}
 					jtp.VerifPurgeCache()
 					env.TakeConns()
-					_, _, gerr := jtp.Get(u, acceptAP, tolAP, 0)
+					var gerr error
+					crashed := func() (p bool) {
+						defer func() {
+							if x := recover(); x != nil {
+								// crashes are C05's and C06's subject; here the case simply gives no verdict
+								r.Note("enva: jtp.Get panicked on %q: %v", raw, x)
+								p = true
+							}
+						}()
+						_, _, gerr = jtp.Get(u, acceptAP, tolAP, 0)
+						return false
+					}()
 					conns := env.TakeConns()
 					n++
+					if crashed {
+						continue
+					}
 					if sch == "http://" {
 						if len(conns) != 0 {
 							r.Violation("enva:non-https-dialled", map[string]any{"url": raw, "msg": "a real connection was opened for an http URL"})
